@@ -316,6 +316,19 @@ impl<'ast> Visit<'ast> for TypeShareVisitor<'_> {
         syn::visit::visit_item_const(self, i);
     }
 
+    // An associated const is not an item typeshare generates; say so instead of
+    // leaving the annotation without effect.
+    fn visit_impl_item_const(&mut self, i: &'ast syn::ImplItemConst) {
+        if has_typeshare_annotation(&i.attrs) && self.target_os_accepted(&i.attrs) {
+            self.collect_result(Err(ParseError::UnsupportedType(format!(
+                "associated const `{}` (only constants at module level can be typeshared)",
+                i.ident
+            ))));
+        }
+
+        syn::visit::visit_impl_item_const(self, i);
+    }
+
     // Track potentially skipped modules.
     // fn visit_item_mod(&mut self, i: &'ast syn::ItemMod) {
     //     if let Some(target_os) = self.target_os.as_ref() {
